@@ -42,17 +42,20 @@ def _funcs(backend):
             cc._stats_detrend0_csd_cuda, cc._stats_poly_auto_cuda, cc._stats_poly_csd_cuda)
 
 
-def call_backend(backend, order, x, y, starts, L, w, omega):
+def call_backend(backend, order, x, y, starts, L, w, omega, chunk=None):
     from speckit.core import _build_Q
     f = _funcs(backend)
     starts = np.ascontiguousarray(starts, dtype=np.int64)
+    # the NumPy fallbacks process the segments in blocks of `_chunk` (keyword-only, default 8192..32768):
+    # a small value exercises the block loop with the K<=16 segments of a quick case
+    kw = {"_chunk": int(chunk)} if (chunk and backend == "numpy") else {}
     if order == -1:
-        r = f[0](x, starts, L, w, omega) if y is None else f[1](x, y, starts, L, w, omega)
+        r = f[0](x, starts, L, w, omega, **kw) if y is None else f[1](x, y, starts, L, w, omega, **kw)
     elif order == 0:
-        r = f[2](x, starts, L, w, omega) if y is None else f[3](x, y, starts, L, w, omega)
+        r = f[2](x, starts, L, w, omega, **kw) if y is None else f[3](x, y, starts, L, w, omega, **kw)
     else:
         Q = _build_Q(L, order)
-        r = f[4](x, starts, L, w, omega, Q) if y is None else f[5](x, y, starts, L, w, omega, Q)
+        r = f[4](x, starts, L, w, omega, Q, **kw) if y is None else f[5](x, y, starts, L, w, omega, Q, **kw)
     return tuple(float(v) for v in r)
 
 
@@ -72,6 +75,7 @@ def kernel_case(draw, maxN, maxK):
     case["starts"] = draw(gens.starts(N, L, maxK=maxK))
     case["w"] = draw(gens.window_vec(L))
     case["omega"] = draw(gens.omega(L))
+    case["chunk"] = draw(st.sampled_from([0, 0, 1, 2, 3, 7]))     # 0: library default
     return case
 
 
@@ -88,12 +92,12 @@ def judge(case, backends):
     ref = refs.dft_stats(x, y, starts, L, w, om, order)
     Sx = tol.seg_scale(x, starts, L, w, order)
     Sy = Sx if y is None else tol.seg_scale(y, starts, L, w, order)
-    Sxy = (Sx * Sy) ** 0.5
+    Sxy = (Sx ** 0.5 * Sy ** 0.5)
     bx, by, bxy = tol.budget2(L, om, Sx), tol.budget2(L, om, Sy), tol.budget2(L, om, Sxy)
     b4 = tol.budget4(L, om, Sx, Sy)
     viol, got, worst = [], {}, 0.0
     for be in backends:
-        mxx, myy, mur, mui, m2 = call_backend(be, order, x, y, starts, L, w, om)
+        mxx, myy, mur, mui, m2 = call_backend(be, order, x, y, starts, L, w, om, case.get("chunk"))
         got[be] = (mxx, myy, mur, mui, m2)
         checks = [("XX", mxx, ref["XX"], bx), ("YY", myy, ref["YY"], by),
                   ("ReXY", mur, ref["XY"].real, bxy), ("ImXY", mui, ref["XY"].imag, bxy),
@@ -131,7 +135,23 @@ def judge(case, backends):
         labels.append("L=1")
     if K == 1:
         labels.append("K=1")
+    if case.get("chunk") and K > case["chunk"] and "numpy" in backends:
+        labels.append("numpy-multi-block")
+    if K > 256 and "cuda" in backends:
+        labels.append("cuda-multi-block")
     return Res(viol, nontrivial, labels, {"worst_err_in_eps_L_g_S": worst})
+
+
+@st.composite
+def cuda_blocks_case(draw):
+    """K > 256 segments: more than one CUDA block of 256 threads (the simulator runs every thread in Python,
+    so N and L are kept small)."""
+    case = draw(kernel_case(160, 8))
+    N, L = case["N"], case["L"]
+    K = draw(st.integers(257, 600))
+    seed = draw(st.integers(0, 2 ** 31 - 1))
+    case["starts"] = [int(v) for v in np.random.default_rng(seed).integers(0, N - L + 1, K)]
+    return case
 
 
 def oracle_kernels(case):
@@ -185,7 +205,7 @@ def oracle_api(case):
         ref = refs.dft_stats(x, y, D, L, w, om, cfg["order"])
         Sx = tol.seg_scale(x, D, L, w, cfg['order'])
         Sy = Sx if y is None else tol.seg_scale(y, D, L, w, cfg['order'])
-        Sxy = (Sx * Sy) ** 0.5
+        Sxy = (Sx ** 0.5 * Sy ** 0.5)
         bx, by, bxy, b4 = tol.budget2(L, om, Sx), tol.budget2(L, om, Sy), tol.budget2(L, om, Sxy), tol.budget4(L, om, Sx, Sy)
         XY = complex(res.XY[j])
         for name, a, b, bud in (("XX", float(res.XX[j]), ref["XX"], bx), ("YY", float(res.YY[j]), ref["YY"], by),
@@ -217,6 +237,8 @@ PARTS = [
          oracle_kernels_cuda, n_quick=120, n_thorough=600, env="cudasim"),
     Part("api_cuda", lambda tier: api_case(200, ("cuda",)), oracle_api_cuda, n_quick=12, n_thorough=60,
          env="cudasim"),
+    Part("kernels_cuda_blocks", lambda tier: cuda_blocks_case(), oracle_kernels_cuda, n_quick=3, n_thorough=20, env="cudasim",
+         shrink=False),
 ]
 
 _cells = ["cell:%s,o=%d,%s" % (b, o, m) for b in ("numba", "numpy") for o in (-1, 0, 1, 2) for m in ("auto", "csd")]
@@ -224,3 +246,5 @@ QUOTAS = {c: {"quick": 10, "thorough": 100} for c in _cells}
 QUOTAS.update({"cell:cuda,o=%d,%s" % (o, m): {"quick": 4, "thorough": 20} for o in (-1, 0, 1, 2) for m in ("auto", "csd")})
 QUOTAS["conj_visible"] = {"quick": 100, "thorough": 1000}
 QUOTAS["scatter_visible"] = {"quick": 100, "thorough": 1000}
+QUOTAS["numpy-multi-block"] = {"quick": 200, "thorough": 2000}
+QUOTAS["cuda-multi-block"] = {"quick": 4, "thorough": 40}
